@@ -269,6 +269,19 @@ Definition eff_system (d : decl) (system : option string) : option string :=
 Definition define_members (systems : gmap string sysdef) (n : string) : gmap string sysdef :=
   fmap (λ sd, if sy_orphans sd && negb (bool_decide (n ∈ sy_members sd))
               then SysDef (sy_base sd) (app (sy_members sd) [n]) true else sd) systems.
+(** in-place [*=]: the other operand is built first; then [_imul_div] looks at the definition of every
+    unit of the quantity ([_get_unit_definition]: an entry of the unit table, else the name is
+    parsed again) — a unit that no longer resolves (it was defined inside a context overlay that is
+    gone) makes the operation fail *)
+Definition obj_units_ok (r : reg) (u : uc) : res unit :=
+  foldM (λ (_ : unit) (kv : string * Qc),
+           match r_units r !! kv.1 with
+           | Some _ => Ok tt
+           | None => match resolve r kv.1 with Ok _ => Ok tt | Err e => Err e end
+           end) (map_to_list u) tt.
+Definition imul_arg_pure tk (r : reg) (u : uc) (a : uarg) : res uc :=
+  v ←r arg_parsed_pure tk r a; _ ←r obj_units_ok r u; Ok v.
+
 (** [_add_prefix]: the definition under its name, symbol and aliases (as [Registry.elab1]) *)
 Definition add_prefix (r : reg) (p : pdef) : reg :=
   let r1 := add_prefix_key (p_name p) p r in
@@ -302,9 +315,13 @@ Definition decl_step tk (d : decl) (o : op) : decl :=
       | Err _ => d
       end
   | OQImul a =>
-      match d_obj d, arg_parsed_pure tk (pview d) a with
-      | Some u, Ok v => Decl (d_reg d) (d_systems d) (d_contexts d) (d_default d) (d_active d) (Some (uc_mul u v))
-      | _, _ => d
+      match d_obj d with
+      | Some u =>
+          match imul_arg_pure tk (pview d) u a with
+          | Ok v => Decl (d_reg d) (d_systems d) (d_contexts d) (d_default d) (d_active d) (Some (uc_mul u v))
+          | Err _ => d
+          end
+      | None => d
       end
   | _ => d
   end.
@@ -336,7 +353,7 @@ Definition pure_answer tk (d : decl) (o : op) : answer :=
   | OQNew a => ans_of (λ _, ADone) (arg_parsed_pure tk r a)
   | OQImul a =>
       match d_obj d with
-      | Some _ => ans_of (λ _, ADone) (arg_parsed_pure tk r a)
+      | Some u => ans_of (λ _, ADone) (imul_arg_pure tk r u a)
       | None => AErr KOther
       end
   | OQDim => match d_obj d with Some u => ans_of ADim (dim_of r u) | None => AErr KOther end
@@ -580,6 +597,8 @@ Definition do_define (qk : quirks) (ud : udef) : M unit := λ s,
   (s2, Ok tt).
 
 (** the tracked quantity *)
+Definition imul_arg (qk : quirks) tk (u : uc) (a : uarg) : M uc :=
+  v ←m arg_parsed qk tk a; λ s, (s, (_ ←r obj_units_ok (view s) u; Ok v)).
 Definition obj_dim (qk : quirks) : M uc := λ s,
   match c_obj s with
   | None => (s, Err EOther)
@@ -622,9 +641,9 @@ Definition live (qk : quirks) tk (o : op) : cstate → cstate * answer := λ s,
   | OQImul a =>
       match c_obj s with
       | None => (s, AErr KOther)
-      | Some _ =>
+      | Some um =>
           fin (λ _ : unit, ADone)
-              ((v ←m arg_parsed qk tk a;
+              ((v ←m imul_arg qk tk um.1 a;
                 λ s', (set_obj (λ ob, match ob with
                                       | Some (u, m) => Some (uc_mul u v, if q_objdim_stale qk then m else None)
                                       | None => None
